@@ -171,7 +171,8 @@ PROPERTIES = {
         "decided_by": "Proved: I-cache (CacheOK relative to the ghost successor signature of each node) is part of the invariant ensured by __init__, "
                       "_ensure_node, _expand_one_node (caches_discarded + raises.nothing_cached), node_successors, reclaim_node_data, the skip functions "
                       "and the three attractor accessors (known data never overwritten, frame); CacheOK(none, none, none) is the only way to "
-                      "re-establish it after a successor is added.",
+                      "re-establish it after a successor is added; expanded_attractor_candidates() leaves stubs alone; _mark_expanded (the helper through which source-SCC "
+                      "attachment turns a stub into an expanded node) drops candidates, seeds and sets exactly when the node was a stub - its caller is not under contract.",
         "bounded": "source shortcuts and sub-diagram attachment (expand_source_blocks / SCCs), non-default configurations",
         "excluded": [],
         "trusted": ["meaning of CacheOK (each non-None cache field is correct for the current successor signature)"],
@@ -214,7 +215,9 @@ PROPERTIES = {
                       "node_successors, expand_bfs have functional postconditions (I-norm, ids allocated in attachment order, sources fixed jointly at "
                       "the root).  With L14 (Lean: trap spaces and attractors of a disjoint union are the pairwise products) and the restriction lemma "
                       "this gives the product and input-conditioning clauses for BFS-built diagrams.  expand_block / expand_scc reach their "
-                      "drivers with the caller's arguments unchanged (delegation contracts against an abstract outcome of the driver).",
+                      "drivers with the caller's arguments unchanged (delegation contracts against an abstract outcome of the driver); source_nodes (which variables the "
+                      "component-wise drivers treat as inputs of a percolated network) lists exactly the variables without an update function or with the identity as "
+                      "update function, each once - its callers are not under contract.",
         "bounded": "disjoint unions, input valuations under build / block / scc / attractor-seed / dfs strategies, published models <= 12 variables vs AEON",
         "excluded": ["agreement with an independent computation on large published models is empirical by nature",
                      "expand_source_blocks / expand_source_SCCs / attach_scc_subdiagram are not under contract (bounded only)"],
